@@ -19,6 +19,7 @@ enc  = "id"|"int"|"str"|"inc"|"dbl"|"anum"|"astr"|{"acat":[levels]}
 access = {"a":"pos","i":n} | {"a":"name","k":key} | {"a":"iter"} | {"a":"len"} | {"a":"keys"} | {"a":"items"}
        | {"a":"copy"} | {"a":"headers"} | {"a":"eq","o":"same"|"lazy"|"refl"|"diff"} | {"a":"label"} | {"a":"tipe"}
        | {"a":"feats","sub":access}
+       | {"a":"take","n":k}      (phase 6: next() k times on a fresh iter(row), then the iterator is abandoned; dense rows)
 """
 import json
 import os
@@ -745,6 +746,9 @@ def eager_access(e, acc):
         return UNDEF if isinstance(v, ErrCell) else val(canon_val(v))
     if has_err(e):
         return UNDEF
+    if a == "take":
+        # a consumer that stops early sees the first k cells of the eager list (theorem partial_iteration); dict iteration order: no claim
+        return val([canon_val(v) for v in e.vals[:acc["n"]]]) if dense else UNDEF
     if a in ("iter", "copy"):
         if dense:
             return val([canon_val(v) for v in e.vals])
@@ -1046,18 +1050,34 @@ def real_access(r, acc, e):
                     return val(["dup-keys", sorted((canon_key(k) for k in xs), key=json.dumps)])
                 return val(sorted((canon_key(k) for k in xs), key=json.dumps))
             return val([canon_val(v) for v in xs])
+        if a == "take":
+            if isinstance(r, dict) or hasattr(r, "keys"):
+                return UNDEF
+            return val([canon_val(v) for v in take_n(r, acc["n"])])
         if a == "copy":
             c = r.copy() if hasattr(r, "copy") else list(r)
             if isinstance(c, dict):
-                return val(sort_pairs([[canon_key(k), canon_val(v)] for k, v in c.items()]))
-            if not isinstance(c, list):
+                res = sort_pairs([[canon_key(k), canon_val(v)] for k, v in c.items()])
+            elif not isinstance(c, list):
                 return val(["not-a-list", type(c).__name__])
-            return val([canon_val(v) for v in c])
+            else:
+                res = [canon_val(v) for v in c]
+            return val(handed_out(r, c, res))
         if a == "keys":
-            ks = list(r.keys())
+            kv = r.keys()
+            ks = list(kv)
             if len(set(ks)) != len(ks):
                 return val(["dup-keys"])
-            return val(sorted((canon_key(k) for k in ks), key=json.dumps))
+            res = sorted((canon_key(k) for k in ks), key=json.dumps)
+            if isinstance(kv, set) and not isinstance(r, dict):
+                # a set handed out by keys() is the caller's: adding to / removing from it must not change the row
+                kv.add("~mut")
+                for k in ks[:1]:
+                    kv.discard(k)
+                again = sorted((canon_key(k) for k in r.keys()), key=json.dumps)
+                if again != res:
+                    return val(["row-changed-by-mutating-the-set-its-keys()-returned", res, again])
+            return val(res)
         if a == "items":
             its = list(r.items())
             if len(dict(its)) != len(its):
@@ -1083,6 +1103,80 @@ def real_access(r, acc, e):
         raise
     except Exception as ex:  # the row access raised
         return {"e": type(ex).__name__}
+
+
+def handed_out(r, c, res):
+    """phase 6 (aliasing of handed-out data): the list / dict returned by row.copy() is the caller's, like `list(l)` / `dict(d)` of the eager row:
+    overwriting its first entry and adding one must not change what the row answers.  -> res, or a marker value when the row changed"""
+    if type(r) in (list, tuple, dict):
+        return res
+    try:
+        if isinstance(c, list):
+            if c:
+                c[0] = "~mut0"
+            c.append("~mut")
+        else:
+            for k in list(c)[:1]:
+                c[k] = "~mut0"
+            c["~mut"] = "~mut"
+    except Exception as ex:
+        return ["copy-cannot-be-modified", type(ex).__name__]
+    c2 = r.copy()
+    again = sort_pairs([[canon_key(k), canon_val(v)] for k, v in c2.items()]) if isinstance(c2, dict) else [canon_val(v) for v in c2]
+    if again != res:
+        return ["row-changed-by-mutating-its-copy", res, again]
+    return res
+
+
+def take_n(row, n):
+    """`next()` n times on a fresh `iter(row)`, then the iterator is abandoned (dropped un-exhausted: generators get GeneratorExit)"""
+    it = iter(row)
+    xs = []
+    for _ in range(n):
+        try:
+            xs.append(next(it))
+        except StopIteration:
+            break
+    del it
+    return xs
+
+
+WALK_MAX = 12
+
+
+def real_walk(row):
+    """[take n for n = 0 .. len+1], each on a fresh iterator that is abandoned afterwards: {"vals":[...], "err": class name | None}
+    (model: DRow.takeN = pull n stream; theorems partial_iteration, takeN_prefix, abandoned_iteration)"""
+    out = []
+    for n in range(WALK_MAX + 2):
+        it = None
+        xs = []
+        err = None
+        try:
+            it = iter(row)
+            for _ in range(n):
+                try:
+                    xs.append(canon_val(next(it)))
+                except StopIteration:
+                    break
+        except Exception as ex:
+            err = type(ex).__name__
+        del it
+        out.append({"vals": xs, "err": err})
+        if err is None and len(xs) < n:
+            break           # exhausted: one entry beyond the end was recorded
+    return out
+
+
+def real_walks(row):
+    o = {"row": real_walk(row)}
+    try:
+        f = row.feats
+    except Exception:
+        f = None
+    if f is not None:
+        o["feats"] = real_walk(f)
+    return o
 
 
 def real_probe(row, kind):
@@ -1191,6 +1285,9 @@ def run_real(case, f1=None, f2=None):
         second[j] = real_access(r2, acc[j], e)
     out["second"] = second
     out["again"] = [real_access(r2, a, e) for a in acc]
+    if case["kind"] == "dense" and not case.get("nested"):
+        out["walk"] = real_walks(r2)
+        out["after_walk"] = [real_access(r2, a, e) for a in acc]
     out["probe"] = real_probe(r2, case["kind"])
     out["src_mutated"] = source_mutated(case, src1) or source_mutated(case, src2)
     out.pop("_src")
@@ -1543,7 +1640,9 @@ class C13(Property):
             "dict/LazySparse±loader±encoders±header maps/ArffReader rows), pipelines of 0-5 stages from HeadRows(list|mapping), "
             "EncodeRows(sequence|mapping by index/name), DropRows(columns by index/name, row predicate missing|cell==v), LabelRows(index|name), "
             "EncodeCatRows(onehot|onehot_tuple|string|None); 3-10 accesses (position incl. len and len+1, name, iter, len, keys, items, copy, "
-            "headers, == same/reflected/lazy/perturbed/padded with 1-3 None cells/cut by 1-3 cells, label, tipe, feats.<access>) on one row, the same accesses permuted and then repeated "
+            "headers, == same/reflected/lazy/perturbed/padded with 1-3 None cells/cut by 1-3 cells, label, tipe, feats.<access>, take n = next() n times on a fresh iterator that is then abandoned) on one row, the same accesses permuted and then repeated "
+            "on a fresh copy, then every prefix length 0..len+1 of the dense row and of its feats is iterated on fresh abandoned iterators (compared with DRow.takeN and with the eager prefix) and the accesses are repeated once more; copies / key sets handed out by copy() / keys() are modified by the harness and the row re-read; "
+            "the second run is "
             "on a fresh copy; in 45 % of the cases the SAME filter objects then process one or two further tables (the first table with columns permuted / "
             "one removed / one added, headers and base encoders moving with their column, or converted dense<->sparse), each judged against its own eager model and sent through the model's `session` in one request (theorem filter_stateless); 4 % of the multi-row dense tables are jagged and 30 % of the multi-row plain sparse tables under EncodeCatRows have a later dict with other keys / categoricals than the first (flag nonuniform: only the first-row model tableD1 / tableS1 is compared); 6 % of the cases are 2-3 dense tables that differ only in the header map (own HeadRows(list|mapping in dict/MappingProxyType/ChainMap/custom Mapping flavours), shared LabelRows, by-name access on feats), 5 % have cells that are lists/dicts holding categoricals under EncodeCatRows ((B) only); 25 % of the cases with stages carry a fork: the stages before the last run once, then the last stage and a variant of it (same filter class, other drop columns / encoders / label / header names) are applied to the SAME row objects and the rows (and .feats for two labels) of the two forks are compared pairwise with == in both directions: lazy_a == lazy_b iff eager_a == eager_b; every case compares its source data deeply before/after; 22 % of the accesses are made on a copy of the row taken at that point of the history (copy.copy / copy.deepcopy / pickle round trip; pickle is skipped where the object holds a lambda or closure), the copy must be indistinguishable from the eager row and the original unchanged; the model receives the copy steps as Acc.clone (theorems access_after_clone, clone_leaves_original); 6 % of the cases are dense ARFF tables with quoted cells (rows with double-quoted / single-quoted / both / no quoted cells) and 30 % of the ordinary multi-row cases read the sibling rows of the observed row first (ascending / descending, another order on the second copy): rows of one read share the line reader / filter closures; non-trivial = at least one stage or a lazy base, and at least 3 accesses with an eager value; distinct by canonical JSON")
     trusted_base = [
@@ -1568,6 +1667,13 @@ class C13(Property):
         "sparse by-key access of an absent key: (B) demands KeyError like the eager dict (theorems sparse_get, lazy_error_eq_eager_error_sparse), except for a raw integer key "
         "of a row whose base carries a header map (hidden keys, sparse_get_counterexample)",
         "dense ARFF cells may be quoted (values holding blanks, commas, one quote kind); the text is a function of the cell (arff_token); other ARFF syntax stays with C12",
+        "phase 6: iteration element by element is modelled (DRow.stream / pull / takeN: _enc_all, EncodeDense's zip generator, compress, DropOne's two chained islices over two "
+        "iterations); next() n times on a fresh iterator that is then abandoned, n = 0..len+1, of the observed dense row and of its feats is compared with takeN on EVERY dense case "
+        "((A), also where the eager table is undefined: the order in which a failing cell raises, with its class) and must be the first n eager cells ((B), theorems "
+        "partial_iteration(_feats)); `take` accesses put such abandoned iterations into the access history (order monitors; abandoned_iteration). How CPython delivers GeneratorExit to "
+        "an abandoned generator is not modelled (the model's iterator has no state beyond the load-once cell): that it leaves the row unchanged is what (B) checks",
+        "phase 6: the list / dict returned by row.copy() and the set returned by keys() are modified by the harness right after they were handed out; the row must answer as before "
+        "((B) marker value row-changed-by-mutating-...); the Lean model is value based, so there is no aliasing in it to prove anything about",
     ]
     assumptions = [
         "header names are distinct (ArffReader rejects duplicates; a duplicate name has no eager by-name meaning)",
@@ -1941,7 +2047,7 @@ class C13(Property):
         return a
 
     def gen_access_plain(self, rng, kind, nmax, names_pool, labeled, top):
-        ops = [(5, "pos"), (5, "name"), (3, "iter"), (3, "len"), (2, "copy"), (2, "headers"), (4, "eq")]
+        ops = [(5, "pos"), (5, "name"), (3, "iter"), (3, "len"), (2, "copy"), (2, "headers"), (4, "eq"), (3, "take")]
         if kind == "sparse":
             ops = [(7, "name"), (3, "iter"), (3, "len"), (2, "copy"), (3, "keys"), (4, "items"), (4, "eq")]
         if labeled and top:
@@ -1958,6 +2064,8 @@ class C13(Property):
             return {"a": "eq", "o": o, "h": rng.below(30)}
         if a == "feats":
             return {"a": "feats", "sub": self.gen_access(rng, kind, nmax, names_pool, False, False)}
+        if a == "take":
+            return {"a": "take", "n": rng.below(nmax + 2)}
         return {"a": a}
 
     def make_case(self, rng, tier, search=False, table=None):
@@ -2552,6 +2660,53 @@ class C13(Property):
         cs.append(mk("dense", plain, [["1", "2", "3"]], [head, {"op": "label", "k": "b", "t": "c"}, {"op": "encode", "seq": ["int", "int", "int"]}], full_d + lab_d))
         cs.append(mk("sparse", plain, [[["a", "1"], ["b", "2"]]], [{"op": "label", "k": "b", "t": "c"}, {"op": "encode", "map": [["a", "int"], ["b", "int"]]}], full_s + lab_s))
         cs += self.corpus_phase5(mk)
+        cs += self.corpus_phase6(mk)
+        return cs
+
+    def corpus_phase6(self, mk):
+        """deterministic family `walk` (phase 6, round i themes: read / abandon / read again / read a sibling; early consumer stop; GeneratorExit):
+        partial iterations of every length interleaved with the other accesses, on rows whose generators are abandoned at a plain cell, at a missing
+        cell (`'?'` / `''`: LazyDense._enc_all's bare except meets GeneratorExit there) and at a failing cell (raise_order_witness)"""
+        cs = []
+        plain = {"wrap": "plain"}
+        head = {"op": "head", "names": ["a", "b", "c"]}
+        T = lambda n: {"a": "take", "n": n}
+        FT = lambda n: {"a": "feats", "sub": T(n)}
+        hist = [T(1), T(2), {"a": "iter"}, T(1), {"a": "pos", "i": 2}, T(0), {"a": "len"}, T(3), {"a": "iter"}, {"a": "eq", "o": "same"}, T(2), T(4), {"a": "pos", "i": 0}, {"a": "copy"}]
+        fhist = [FT(1), {"a": "label"}, FT(2), {"a": "feats", "sub": {"a": "iter"}}, FT(0), T(2), FT(1), {"a": "iter"}, FT(3), {"a": "feats", "sub": {"a": "eq", "o": "same"}}, T(1), {"a": "feats", "sub": {"a": "len"}}]
+        arff3 = {"wrap": "arff", "cols": [{"name": "a", "t": "num"}, {"name": "b", "t": "cat", "lv": ["p", "q"]}, {"name": "c", "t": "str"}]}
+        lazy3 = {"wrap": "lazy", "loader": True, "enc": ["int", "str", "int"], "hdr": ["a", "b", "c"]}
+        lazyn = {"wrap": "lazy", "loader": True, "enc": ["inc", "dbl", "str"]}
+        bases = [(arff3, [["4", "?", "x"], ["?", "q", "?"], ["1", "p", "y"]]), (lazy3, [["1", "", "?"], ["?", "x", "7"]]), (lazyn, [[1, 2, 3], [4, 5, 6]]),
+                 (plain, [["1", "2", "3"], ["4", "5", "6"]]), ({"wrap": "lazy", "loader": True}, [[1, 2, 3], [4, 5, 6]])]
+        views = [[], [{"op": "encode", "map": []}], [{"op": "drop", "cols": [1], "pred": None}], [{"op": "encode", "seq": ["id", "id", "id"]}, {"op": "drop", "cols": [0], "pred": None}],
+                 [{"op": "drop", "cols": [2], "pred": None}, {"op": "encode", "map": []}]]
+        for base, rows in bases:
+            named = base is arff3 or base is lazy3
+            for st in views:
+                for ri in range(len(rows)):
+                    c = mk("dense", base, rows, ([] if named or base is lazyn else [head]) + st, hist, ri)
+                    c["touch"] = {"first": "fwd" if ri % 2 == 0 else None, "second": "rev"}
+                    cs.append(c)
+            for k in (0, 1, 2):
+                for later in ([], [{"op": "encode", "map": []}]):
+                    pre = [{"op": "drop", "cols": [1 if k != 1 else 0], "pred": None}] if later else []
+                    kk = k if not pre else min(k, 1)
+                    cs.append(mk("dense", base, rows, pre + [{"op": "label", "k": kk, "t": "c"}], fhist, len(rows) - 1))
+        # a failing cell (the eager table is undefined: (A) against DRow.takeN only): the ORDER of raising
+        bad = {"wrap": "lazy", "loader": False, "enc": ["int", "int", "int"]}
+        for rows in ([["1", "x", "3"]], [["1", "2", "x"]], [["x", "2", "3"]]):
+            cs.append(mk("dense", bad, rows, [{"op": "label", "k": 1, "t": "c"}], [FT(1), FT(2), {"a": "feats", "sub": {"a": "pos", "i": 0}}, FT(1), FT(3), T(1), T(2), T(3)]))
+            cs.append(mk("dense", bad, rows, [{"op": "drop", "cols": [1], "pred": None}], [T(1), T(2), {"a": "pos", "i": 1}, {"a": "pos", "i": 0}, T(1), T(3), {"a": "iter"}]))
+            cs.append(mk("dense", {"wrap": "plain"}, rows, [{"op": "encode", "seq": ["int", "int", "int"]}, {"op": "drop", "cols": [0], "pred": None}, {"op": "label", "k": 0, "t": None}],
+                         [T(1), T(2), FT(1), FT(2), {"a": "pos", "i": 1}, T(0), {"a": "iter"}]))
+        # jagged table: DropRows takes its selectors [True] from the one-column first row; compress stops after them and never pulls the failing third cell of row 1
+        # (iter_vs_stream_short_selector_witness: the whole-list model `iter` raises there, the element-wise model follows the code)
+        jag = mk("dense", bad, [["1"], ["1", "2", "x"]], [{"op": "drop", "cols": [5], "pred": None}], [T(1), T(2), T(5), {"a": "iter"}, {"a": "len"}, {"a": "pos", "i": 0}, T(1)], 1)
+        jag["nonuniform"] = True
+        cs.append(jag)
+        for c in cs:
+            c["family"] = "walk"
         return cs
 
     def corpus_phase5(self, mk):
@@ -2684,6 +2839,8 @@ class C13(Property):
             else:
                 tags.append("fork-skipped:" + (fk.get("skip") or "pipe-err"))
         tags.append("tables:%d" % len(outs))
+        if case.get("family"):
+            tags.append("family:" + case["family"])
         return {"fails": fails, "nontrivial": any(o["nontrivial"] for o in outs), "tags": tags,
                 "impl": [o["impl"] for o in outs] + ([{"fork": fk}] if fk is not None else []), "model": [o["model"] for o in outs]}
 
@@ -2782,12 +2939,40 @@ class C13(Property):
                                 case["ri"], json.dumps(case["stages"]), touched, json.dumps(orig_acc[j]), json.dumps(got)[:300], json.dumps(exp)[:300]),
                                 bsig[j] + ((":on-" + leaf_how(orig_acc[j])) if has_clone(orig_acc[j]) and not known_sig(bsig[j]) else "")))
                     # access order: permuted run on a fresh copy, then every access once more on the used copy
-                    for other, what in ((real["second"][j], "in a different order on a fresh copy"), (real["again"][j], "again after all other accesses")):
+                    aw = real.get("after_walk")
+                    for other, what in ((real["second"][j], "in a different order on a fresh copy"), (real["again"][j], "again after all other accesses"),
+                                        (aw[j] if aw else None, "again after the row (and its feats) had been iterated partially, 0..len+1 elements, every iterator abandoned")):
                         if other is not None and other != got and "u" not in other and "u" not in got:
                             fails.append(BF("o%d" % j, "access %s returned %s first and %s when performed %s" % (json.dumps(acc), json.dumps(got)[:200], json.dumps(other)[:200], what),
                                            ARFF_QUOTE_SIG if arff_quote_area(case) else "%s:order-dependent:%s" % (kind, leaf(acc)["a"])))
         if real.get("no_row"):
             tags.append("no-row")
+        walk = real.get("walk")
+        wsig = {}
+        if walk and et is not None and tfail is None and "pipe_err" not in real and real.get("n") == len(et):
+            # (B) early consumer stop: next() n times on a fresh iterator gives the first n cells of the eager list and raises nothing (partial_iteration(_feats))
+            e = et[case["ri"]]
+            for part in ("row", "feats"):
+                if part not in walk:
+                    continue
+                try:
+                    ee = e if part == "row" else eager_feats(e)
+                except Undefined:
+                    continue
+                if has_err(ee):
+                    tags.append("walk-no-eager-value:" + part)
+                    continue
+                cells = [canon_val(v) for v in ee.vals]
+                tags.append("walk-checked:%s:len=%d" % (part, min(len(cells), 6)))
+                for n, w in enumerate(walk[part]):
+                    if w["err"] is not None or w["vals"] != cells[:n]:
+                        wacc = {"a": "take", "n": n} if part == "row" else {"a": "feats", "sub": {"a": "take", "n": n}}
+                        got = {"e": w["err"]} if w["err"] is not None else {"v": w["vals"]}
+                        wsig[part] = classify(case, wacc, {"v": cells[:n]}, got)
+                        fails.append(BF("w" + part, "row %d after %s: next() %d times on iter(row%s) gives %s%s, the eager list starts with %s" % (
+                            case["ri"], json.dumps(case["stages"]), n, "" if part == "row" else ".feats", json.dumps(w["vals"])[:200],
+                            (" and then raises " + w["err"]) if w["err"] else "", json.dumps(cells[:n])[:200]), wsig[part]))
+                        break
         probe = real.get("probe")
         if probe and type(probe[0]) is dict and "wrap_err" not in probe[0]:
             # (B) an attribute reached through 1, 2, 3 further wrapping views is the attribute of the row itself (forwarding_depth_independent)
@@ -2836,6 +3021,28 @@ class C13(Property):
                     for j, acc in enumerate(case["acc"]):
                         if bsig[j] is not None:
                             continue        # already reported as (B); the model mirrors the repaired code there
+                        if leaf(acc)["a"] == "take" or (leaf(acc)["a"] in ("iter", "copy") and et is None and kind == "dense"):
+                            # element-by-element iteration: the model's DRow.takeN (driver field `walk`), also where the eager table is undefined
+                            # (the ORDER in which a failing cell raises is modelled: DRow.stream)
+                            part = "feats" if acc["a"] == "feats" else "row"
+                            mw = (ans.get("walk") or {}).get(part)
+                            if kind != "dense" or not mw or suspended(case, acc, exps[j]):
+                                continue
+                            if part == "feats" and et is None and mw[-1] == {"vals": [], "err": None}:
+                                # a label column beyond the end of a zero-width row: islice / len() reject DropOne's negative length; not modelled (as feats.len / feats ==)
+                                tags.append("A-skipped-feats-of-invalid-label")
+                                continue
+                            ent = mw[min(leaf(acc)["n"], len(mw) - 1)] if leaf(acc)["a"] == "take" else mw[-1]
+                            x = real["first"][j]
+                            y = {"e": ent["err"]} if ent["err"] else {"v": ent["vals"]}
+                            tags.append("A-walk-access:%s:%s" % (acc_name(acc), "raises" if ent["err"] else "value"))
+                            if "u" in x:
+                                continue
+                            if x != y:
+                                d = ("access %s: implementation %s, model (takeN) %s (stages %s)" % (json.dumps(acc), json.dumps(x)[:200], json.dumps(y)[:200], json.dumps(case["stages"])[:300]),
+                                     "%s:%s:last=%s" % (kind, acc_name(acc), last_wrapper(case)))
+                                break
+                            continue
                         if et is None and not case.get("nonuniform") and leaf(acc)["a"] in ("iter", "copy", "eq", "items"):
                             # some cell's encoder raises (the eager table is undefined): which consumer pulls the failing cell
                             # (zip / compress / islice stop early) is not modelled; whole-row accesses are not compared then
@@ -2880,6 +3087,34 @@ class C13(Property):
                             break
                     else:
                         tags.append("A-probe-compared")
+                if d is None and walk and ans.get("walk") and "first" in m:
+                    # every prefix length, of the row and of its feats: implementation against DRow.takeN; and takeN after an abandoned iteration (stepTake)
+                    for part in ("row", "feats"):
+                        if wsig.get(part) is not None:
+                            continue        # already reported as (B)
+                        x, y = walk.get(part), ans["walk"].get(part)
+                        if (x is None) != (y is None):
+                            d = ("row.feats exists: implementation %s, model %s" % (x is not None, y is not None), "dense:walk:feats-exists:last=%s" % last_wrapper(case))
+                            break
+                        if x is None:
+                            continue
+                        if part == "feats" and suspended(case, {"a": "feats", "sub": {"a": "iter"}}, None):
+                            continue
+                        if part == "feats" and et is None and y and y[-1] == {"vals": [], "err": None}:
+                            tags.append("A-skipped-feats-of-invalid-label")
+                            continue
+                        if any(w["err"] for w in x) or len(x) == WALK_MAX + 2:
+                            k = min(len(x), len(y))         # a raising element raises for every longer consumer: the common range of n is compared
+                            x, y = x[:k], y[:k]
+                        if x != y:
+                            n = next((i for i, (u, w) in enumerate(zip(x, y)) if u != w), min(len(x), len(y)))
+                            d = ("next() %d times on iter(row%s): implementation %s, model (takeN) %s (stages %s)" % (
+                                n, "" if part == "row" else ".feats", json.dumps(x[n] if n < len(x) else "no further entry")[:200], json.dumps(y[n] if n < len(y) else "no further entry")[:200],
+                                json.dumps(case["stages"])[:300]), "dense:walk:%s:last=%s" % (part, last_wrapper(case)))
+                            break
+                        tags.append("A-walk-compared:%s:%s" % (part, "raises" if any(w["err"] for w in x) else "values"))
+                    if d is None and ans["walk"].get("after") != ans["walk"].get("row"):
+                        fails.append(F("C", "model: takeN after an abandoned partial iteration differs from takeN on the untouched row", "C:walk-after"))
                 if "pad" in ans and ans["pad"]:
                     for j, flag in enumerate(ans["pad"]):
                         if flag:
@@ -3035,6 +3270,8 @@ def acc_to_model(e, acc, plain_obj):
     if a == "eq":
         o = None if plain_obj else other_side(e, acc)
         return {"a": "eq", "other": o} if o is not None else {"a": "skip"}
+    if a == "take":
+        return {"a": "skip"}        # not a constructor of the model's `Acc`: answered from the driver's `walk` (DRow.takeN)
     return acc
 
 
